@@ -83,6 +83,9 @@ def build_bundle_listed(tree, name, counter):
     HOST, DEVICE = h.Roles(2) if n % 2 else 2 * h.Role()
     R = {"HOST": HOST, "DEVICE": DEVICE, None: None}
     attrs = {"HOST": HOST, "DEVICE": DEVICE}
+    if n % 3 == 2:
+        # … or the nameless roles are collected in a RoleSet by a dict, which calls them what its keys say (RoleSet.from_dict)
+        attrs = {"roles": h.RoleSet.from_dict({"HOST": HOST, "DEVICE": DEVICE})}
     for s in tree["sigs"]:
         k, w = s["kind"], s["w"]
         mk = {"input": h.Input, "output": h.Output, "inout": h.Inout, "port": h.Port}.get(k)
